@@ -3,6 +3,7 @@ use crate::runner::Property;
 pub mod c10;
 pub mod c12;
 pub mod c13;
+pub mod c14;
 pub mod c15;
 
 pub fn get(id: &str) -> Option<Property> {
@@ -10,6 +11,7 @@ pub fn get(id: &str) -> Option<Property> {
         "C10" => c10::property(),
         "C12" => c12::property(),
         "C13" => c13::property(),
+        "C14" => c14::property(),
         "C15" => c15::property(),
         _ => return None,
     })
